@@ -7,6 +7,7 @@ Tie:      API level: random pipelines over every construction path that can repo
           partitions the graph really produces (and the `get_partition(i)` view) are checked against
           `.divisions` by the Python oracle AND by the Lean `truthfulB`; function level: LocSlice /
           Partitions division rules.
+Extension: Model/LocList.lean + Props/C41xLocList.lean (LocList / LocElement), sections in _c41x_loclist.py.
 """
 from __future__ import annotations
 
@@ -38,14 +39,35 @@ LEVEL_TEXT = ("Lean 4: the statement's predicate Truthful (npartitions = len(div
               "selection, set_index (computed / given divisions / npartitions=), interleaved concat, index merges, head/tail, "
               "map_partitions: the partitions the graph produces and the get_partition(i) view are checked against .divisions by "
               "the Python oracle and by the Lean truthfulB; Concat._divisions for ordered frames and LocSlice / Partitions "
-              "division rules at function level. NOT covered by a theorem: align_partitions' choice of the common divisions, "
-              "interleaved concat, LocList. Optimizer rewrites after a set_index with computed divisions (filter, head/tail) "
+              "division rules at function level. EXTENSION (Props/C41xLocList, Model/LocList): .loc[[labels]] (LocList) and .loc[x] "
+              "(LocElement) as they are in the code - _partitions_of_index_values (the loop routeLoop = the closed form routeItems: "
+              "route_loop_is_closed_form; route_items_wf: increasing partition order, no empty item, labels in order of appearance with "
+              "duplicates, none dropped), the reported divisions (min of every item, max of the last), pandas df.loc[[..]] on one "
+              "partition (KeyError for a missing label), LocList._lower / LocElement._lower. loc_list_truthful (full statement: on a "
+              "truthful frame the reported divisions are truthful for the output partitions, every label fetched ALL rows of the frame "
+              "carrying it in the order the code defines, and the computation only succeeds when every label is in the frame), "
+              "loc_list_divisions_truthful (truthful + legal divisions with NO hypothesis on frame, divisions or labels), "
+              "loc_list_label_found (a row of partition j is routed to j), loc_list_total, loc_list_missing_raises, "
+              "loc_list_outside_raises (labels beyond the divisions), route_label_at_division (interior division -> right-hand "
+              "partition, last / duplicated last division -> last partition), route_label_outside, loc_list_lower_routing (the second "
+              "routing by the divisions of Partitions(frame, used) sends every label to the position of its partition), "
+              "loc_list_lower_same_result, loc_element_truthful (divisions (x, x), every row labelled x, in order), "
+              "loc_element_guard, loc_element_lower_routing. Tied on every run: the routing table label -> ORIGINAL partition read "
+              "off the lowered LocList graph, _partitions_of_index_values, LocList._divisions/_lower, LocElement._divisions/_lower "
+              "and the partition it reads vs the model on generated division vectors (duplicated last division, labels at "
+              "divisions, outside the range, duplicated, unsorted; list / ndarray / Series); computed partitions row by row; oracles "
+              "(truthful, all rows of every label, KeyError iff a label is absent). NOT covered by a theorem: interleaved concat, "
+              ".loc[callable / boolean series] (validated by the pipelines). Optimizer rewrites after a set_index with computed divisions (filter, head/tail) "
               "violate the statement on the unchanged tree: known findings, classified by their exact symptom.")
 LEVEL_NOTE = ("Trusted: Lean kernel + standard axioms; the differential tie (LocSlice.start/stop/_divisions, Partitions._divisions, "
-              "Concat._divisions function level; pipelines API level); pandas label slicing on one partition; expression classes "
+              "Concat._divisions, _partitions_of_index_values, LocList/LocElement._divisions/_lower/_layer function level; pipelines API "
+              "level); pandas label slicing and list selection (df.loc[[labels]]: label by label, KeyError when one is missing) on one "
+              "partition; expression classes "
               "outside the generated pipelines (evidence lists the paths reached) are not covered.")
 TECHNIQUE = "Lean 4 proof (closure of the Truthful predicate under each construction path; loop invariants for RepartitionDivisions) + differential correspondence + property oracle on the real code"
 ASSUMPTIONS = ["index values are non-negative ints in the model; compared only through <, <=, ==",
+               "pandas df.loc[[labels]] on one partition = for every label in the given order all rows carrying it in positional "
+               "order, KeyError if a label is missing (pandasLocList; diffed against pandas on every run)",
                "the order of rows with EQUAL index values inside a partition after a shuffle is not promised (two graphs of the "
                "same expression differ): oracles never depend on it"]
 TRUSTED = ["Lean 4 kernel, axioms propext / Classical.choice / Quot.sound", "harness/props/c41.py differential tie", "pandas as oracle"]
@@ -219,6 +241,10 @@ def case_pipeline(ctx, inp):
         # known finding: Head/Tail of such a set_index is rewritten to SetIndex(NFirst/NLast(...))
         if cand is None and si_computed and any(o[0] in ("head", "tail") for o in inp["ops"][si_computed[0] + 1:]):
             cand = "set_index(computed divisions)+head|tail:optimizer-rewrites-to-NFirst/NLast"
+        # ... and the same rewrite (SetIndex._simplify_up) fires when the divisions were GIVEN by the user (they are discarded)
+        si_given = [i for i in si if inp["ops"][i][0] == "set_index" and inp["ops"][i][1] is not None]
+        if cand is None and si_given and any(o[0] in ("head", "tail") for o in inp["ops"][si_given[0] + 1:]):
+            cand = "set_index(given divisions)+head|tail:optimizer-rewrites-to-NFirst/NLast"
         # the recorded symptom is exactly: the optimized expression reports OTHER divisions than the collection, and the
         # partitions of the graph are truthful for those; anything else in such a pipeline is reported as fresh
         fsig = None
@@ -248,7 +274,7 @@ def case_pipeline(ctx, inp):
             consumes = any(o[0] in ("repartition_d", "repartition_n", "loc_slice", "loc_list", "loc_elem", "partitions",
                                     "partitions_slice") for o in inp["ops"][(si_computed[0] + 1) if si_computed else 0:])
             ctx.fail("computing divisions/partitions raised: " + U.exc_name(e),
-                     sig=(f"set_index(computed divisions)+later-step:compute-raises-{type(e).__name__}" if cand and consumes
+                     sig=(f"set_index(computed divisions)+later-step:compute-raises-{type(e).__name__}" if cand and consumes and si_computed
                           else f"{inp['ops'][-1][0] if inp['ops'] else 'source'}:compute:{type(e).__name__}"),
                      observed=[U.exc_name(e), path])
             return
